@@ -203,6 +203,13 @@ def last_return(fn):
     return max(rets, key=lambda n: n.lineno).value
 
 
+def last_return_first(fn):
+    rets = [n for n in ast.walk(fn) if isinstance(n, ast.Return) and n.value is not None]
+    if not rets:
+        raise Refuse("no return")
+    return min(rets, key=lambda n: n.lineno).value
+
+
 def assigns(fn, name):
     """all right-hand sides assigned to `name` (in source order)"""
     out = []
@@ -369,6 +376,69 @@ def main():
     emit('g3c_rotor_between_planes', gen_rbp,
          "theorem g3c_rotor_between_planes_eq (P1 P2 : A) : GenMV.g3c_rotor_between_planes_unnormalised P1 P2 = 1 + (-1 : ℚ) • (P2 * P1) := by\n"
          "  simp only [GenMV.g3c_rotor_between_planes_unnormalised, one_smul]\n  mv_fin\n")
+
+    # ---- g3c.point_pair_to_end_points: F = T/beta; P = 0.5*F + 0.5; P~ = -0.5*F + 0.5; -(P~ (T|ninf)), P (T|ninf)
+    def gen_ppep():
+        f = find(tree(G3C), 'point_pair_to_end_points')
+        b = assigns(f, 'beta')
+        if len(b) != 1 or ast.unparse(b[0]) != 'np.sqrt(abs((T * T).value[0]))':
+            raise Refuse("beta is not np.sqrt(abs((T * T).value[0]))")
+        tr = Tr(dict(T=H('T', '(1 : ℚ)'), ninf=V('ninf'), beta=S('β')))
+        for nm in ('F', 'P', 'P_twiddle'):
+            rhs = assigns(f, nm)
+            if len(rhs) != 1:
+                raise Refuse(nm)
+            t = tr.tr(rhs[0])
+            tr.env[nm] = T(f"({t.lean})", 'm')
+        outs = []
+        for nm in ('A', 'B'):
+            rhs = assigns(f, nm)
+            if len(rhs) != 1 or not (isinstance(rhs[0], ast.Call) and ast.unparse(rhs[0].func) == 'normalise_n_minus_1' and len(rhs[0].args) == 1):
+                raise Refuse(f"{nm} is not normalise_n_minus_1(<expr>)")
+            outs.append(tr.tr(rhs[0].args[0]).lean)
+        g = find(tree(G3C), 'normalise_n_minus_1')
+        sc = assigns(g, 'scale')
+        if len(sc) != 1 or ast.unparse(sc[0]) != '(mv | ninf).value[0]':
+            raise Refuse("normalise_n_minus_1: scale is not (mv | ninf).value[0]")
+        nrm = Tr(dict(mv=V('mv'), scale=S('sc'))).tr(last_return_first(g))
+        return (f"def g3c_pp_end_A (T ninf : A) (β : ℚ) : A := {outs[0]}\ndef g3c_pp_end_B (T ninf : A) (β : ℚ) : A := {outs[1]}\n"
+                f"def g3c_normalise (mv : A) (sc : ℚ) : A := {nrm.lean}\n")
+    emit('g3c_point_pair_end_points', gen_ppep,
+         "theorem g3c_point_pair_end_points_eq {P Q e : A} {γ : ℚ} (h : PointPair.Null2 P Q γ) (hγ : γ ≠ 0) "
+         "(hPe : e * P = (-2 : ℚ) • (1 : A) - P * e) (hQe : e * Q = (-2 : ℚ) • (1 : A) - Q * e) : "
+         "GenMV.g3c_pp_end_A (PointPair.pp P Q) e (-γ) = P ∧ GenMV.g3c_pp_end_B (PointPair.pp P Q) e (-γ) = Q "
+         "∧ ∀ (mv : A) (sc : ℚ), GenMV.g3c_normalise mv sc = (-(1 / sc)) • mv := by\n"
+         "  have hd := PointPair.pp_dot_einf h e hPe hQe\n  have he := PointPair.end_points h hγ\n"
+         "  have hd' : (1/2 : ℚ) • (PointPair.pp P Q * e - (1 : ℚ) • (e * PointPair.pp P Q)) = Q - P := by rw [one_smul]; exact hd\n"
+         "  have hg : (1 / -γ : ℚ) = -1 / γ := by rw [one_div, neg_div, one_div, inv_neg]\n"
+         "  refine ⟨?_, ?_, ?_⟩\n"
+         "  · simp only [GenMV.g3c_pp_end_A]; rw [hd', hg]; linear_combination (norm := skip) he.2; mv_nf; mv_fin\n"
+         "  · simp only [GenMV.g3c_pp_end_B]; rw [hd', hg]; linear_combination (norm := skip) he.1; mv_nf; mv_fin\n"
+         "  · intro mv sc; simp only [GenMV.g3c_normalise]; mv_fin\n")
+
+    # ---- g3c.get_center_from_sphere: sphere * ninf * sphere
+    def gen_centre():
+        f = find(tree(G3C), 'get_center_from_sphere')
+        rhs = assigns(f, 'center')
+        if len(rhs) != 1:
+            raise Refuse("center")
+        t = Tr(dict(sphere=M('S'), ninf=V('ninf'))).tr(rhs[0])
+        return f"def g3c_sphere_center (S ninf : A) : A := {t.lean}\n"
+    emit('g3c_sphere_center', gen_centre,
+         "theorem g3c_sphere_center_eq (S ninf : A) : GenMV.g3c_sphere_center S ninf = S * ninf * S := by\n"
+         "  simp only [GenMV.g3c_sphere_center, mul_assoc]\n")
+
+    # ---- cga.Dilation: e ** ((-log(arg)/2.) * E0): the exponent
+    def gen_dilation():
+        f = find(tree(CGA), '__init__', 'Dilation')
+        rhs = [v for v in assigns(f, 'mv') if isinstance(v, ast.BinOp) and isinstance(v.op, ast.Pow)]
+        if len(rhs) != 1 or ast.unparse(rhs[0].left) != 'e':
+            raise Refuse("Dilation: expected one `e ** (...)`")
+        t = Tr({}, attrs=CONF_ATTRS, opaque={'log(arg)': S('L')}).tr(rhs[0].right)
+        return f"def cga_dilation_exponent (L : ℚ) (E0 : A) : A := {t.lean}\n"
+    emit('cga_dilation', gen_dilation,
+         "theorem cga_dilation_eq (L : ℚ) (E0 : A) : GenMV.cga_dilation_exponent L E0 = (-(L / 2)) • E0 := by\n"
+         "  simp only [GenMV.cga_dilation_exponent]; mv_fin\n")
 
     # ---- cga.CGAThing.__call__ / inverted
     def gen_cga_call():
